@@ -132,6 +132,15 @@ def spec_families():
         {'extra': [b'Sec-WebSocket-Protocol:   v2  ']},
         {'extra': [b'Sec-WebSocket-Extensions: permessage-deflate'], 'deflate': True},
         {'extra': [b'sec-websocket-extensions: permessage-deflate; client_max_window_bits=10', b'SEC-WEBSOCKET-PROTOCOL: chat'], 'deflate': True},
+        {'extra': [b'Sec-WebSocket-Extensions: x-unknown-ext, permessage-deflate; server_no_context_takeover'], 'deflate': True},
+        {'extra': [b'Sec-WebSocket-Extensions: x-unknown-ext; a=1'], 'deflate': True},
+        {'extra': [b'Sec-WebSocket-Extensions: permessage-deflate ; server_max_window_bits = 9 ;client_no_context_takeover'], 'deflate': True},
+    ] + [
+        {'extra': [b'Sec-WebSocket-Extensions: permessage-deflate; ' + prm], 'deflate': True}
+        for prm in (b'server_max_window_bits=7', b'server_max_window_bits=16', b'client_max_window_bits=0', b'server_max_window_bits=abc',
+                    b'server_max_window_bits=', b'client_max_window_bits="10"', b'server_max_window_bits=-8', b'server_max_window_bits=1e1',
+                    b'server_max_window_bits=15; server_max_window_bits=15', b'x_unknown_parameter', b'server_no_context_takeover=1',
+                    b'client_max_window_bits=15.0', b'server_max_window_bits=\xc2\xb9\xc2\xb2', b'server_max_window_bits=\xd9\xa9')
     ]
     return fam
 
@@ -168,7 +177,7 @@ class C10(F.Check):
         'keys come from a scripted os.urandom (6 values); the key is opaque to the library (base64 + SHA-1 only), so no key-dependent branch exists beyond the menu',
         'replies whose extension parameters are invalid are C06\'s business; odd status spellings, duplicate Upgrade/Accept headers are don\'t-care',
     ]
-    expect_sites = ('ready', 'rejected', 'protocol_error', 'dontcare', 'request', 'chain', 'single-cuts')
+    expect_sites = ('ready', 'rejected', 'either', 'protocol_error', 'dontcare', 'request', 'chain', 'single-cuts')
 
     def rule(self, tier):
         return ('families %s x keys %d x deliveries; every single cut of the standard and folded reply; %d URL shapes x header/protocol/compress menus; '
@@ -234,6 +243,9 @@ class C10(F.Check):
                 want_ext = {'permessage-deflate'} if verdict[2] else set()
                 if set(ev.extensions) != want_ext:
                     out.append(('ready-extensions', 'Ready.extensions=%r, expected %r' % (ev.extensions, want_ext)))
+        elif verdict[0] == 'either':
+            if body not in (['rejected'], ['ready', 'text'], ['ready', 'binary', 'text']):
+                out.append(('ready-or-rejected-expected', 'reply with an invalid extension parameter (%s): events %r' % (verdict[1], names)))
         elif verdict[0] == 'rejected':
             if 'ready' in body:
                 out.append(('ready-for-bad-reply', 'reply must be rejected (%s) but events %r' % (verdict[1], names)))
